@@ -18,6 +18,7 @@ namespace
         void* expect_call = nullptr;
         bool any_call = false;     // sqfvm_load_config has no call data: what the callback gets is unspecified
         int cbs = 0;
+        int vcbs = 0;              // callbacks of verbose / trace level
         int bad = 0;
         std::string out;
     };
@@ -25,6 +26,7 @@ namespace
     void callback(void* user, void* call, int32_t sev, const char* msg, uint32_t len)
     {
         g_cb.cbs++;
+        if (sev >= 4) { g_cb.vcbs++; }      // verbose and trace level
         if (user != g_cb.expect_user || (!g_cb.any_call && call != g_cb.expect_call)) { g_cb.bad++; }
         std::string text(msg ? msg : "", msg ? len : 0);
         auto p = text.find("[DIAG_LOG] [");
@@ -47,6 +49,7 @@ namespace
     {
         if (kind == "setg1") return "gX = 1;";
         if (kind == "setg2") return "gX = 2;";
+        if (kind == "verbose") return "gX = 1; gV = [1] select false;";
         if (kind == "evalerr") return "gX = 1; gV = [__EVAL([1,2] select 7)];";
         if (kind == "cfgevalerr") return "class A { x = 1; y[] = {__EVAL([1,2] select 7)}; };";
         if (kind == "readg") return "diag_log [\"G\", if (isNil \"gX\") then {\"nil\"} else {gX}];";
@@ -131,7 +134,7 @@ static void cmd_api(const J& c)
         }
         J e = ev("Api");
         e.set("op", o).set("ret", (long long)ret).set("status", (long long)(h ? sqfvm_status(h) : -1)).set("out", g_cb.out)
-            .set("cbs", g_cb.cbs).set("badcb", g_cb.bad);
+            .set("cbs", g_cb.cbs).set("badcb", g_cb.bad).set("vcbs", g_cb.vcbs);
         emit(e);
         vclock::advance_ms(1000);          // the embedder is slow between calls: 1 s > the 0.3 s limit
     }
